@@ -62,7 +62,7 @@ def run(ctx):
         if isinstance(c, str):
             c = json.loads(c)
         scen.append({"main": c["main"], "personal": c["personal"], "backup": "", "maxatt": c["maxatt"],
-                     "base": c["base"] * 1000, "factor": float(c["factor"]), "cap": c["cap"] * 1000})
+                     "base": c["base"] * 1000, "factor": float(c["factor"]), "cap": c["cap"] * 1000, "heal": c["heal"]})
     total = len(scen)
     rnd = random.Random(ctx.seed)
     if q:
@@ -70,7 +70,7 @@ def run(ctx):
         # every (main, personal, maxatt) combination at least once, then a sample of the rest
         keep, have = [], set()
         for s in scen:
-            k = (s["main"], s["personal"], s["maxatt"])
+            k = (s["main"], s["personal"], s["maxatt"], s["heal"])
             if k not in have:
                 have.add(k)
                 keep.append(s)
@@ -80,12 +80,22 @@ def run(ctx):
     for _ in range(150 if q else 1500):
         scen.append({"main": rnd.choice(faults), "personal": rnd.choice(faults), "backup": rnd.choice(["", "ok", "malformed"]),
                      "maxatt": rnd.randint(-2, 5), "base": rnd.choice([0, 1, 137, 1000, 2500]),
-                     "factor": rnd.choice([1.0, 1.5, 2.0, 10.0]), "cap": rnd.choice([0, 1, 500, 1000, 4000])})
+                     "factor": rnd.choice([1.0, 1.5, 2.0, 10.0]), "cap": rnd.choice([0, 1, 500, 1000, 4000]),
+                     "heal": rnd.choice([0, 0, 1, 2, 3])})
     # long retry runs with tiny caps: the exponential must saturate at the cap, never overflow
     for _ in range(12 if q else 80):
         scen.append({"main": rnd.choice(["malformed", "isdir", "ok"]), "personal": rnd.choice(["malformed", "isdir"]),
                      "backup": "", "maxatt": rnd.choice([15, 40, 70, 130]), "base": rnd.choice([0, 1, 100]),
-                     "factor": rnd.choice([2.0, 10.0, 1000.0]), "cap": rnd.choice([0, 1, 30])})
+                     "factor": rnd.choice([2.0, 10.0, 1000.0]), "cap": rnd.choice([0, 1, 30]), "heal": rnd.choice([0, 0, 7, 14])})
+    # one recovery object serving several loads: a load of good files right after a failed one, through the same object
+    loads = ("ok", "empty")
+    out = []
+    for s in scen:
+        out.append(s)
+        static_ok = s["main"] in loads and s["personal"] in loads + ("missing",)
+        if not static_ok and rnd.random() < (0.25 if q else 0.5):
+            out.append(dict(s, main="ok", personal=rnd.choice(["ok", "missing", "empty"]), backup="", heal=0, reuse=True))
+    scen = out
     sf = os.path.join(ctx.work, "loader-scenarios.jsonl")
     with open(sf, "w") as f:
         for s in scen:
